@@ -308,6 +308,11 @@ func runC08(c *core.Ctx) error {
 	r4 := c.NewRule("R08.4", "S1", "hex escapes are zero-padded exactly below the radix (\\x0H for value < 16, \\xHH otherwise)", 1)
 	checkHexPadding(c, prog, r4)
 
+	// ---- R08.5
+	if err := checkPatternTextUnchanged(c); err != nil {
+		return err
+	}
+
 	// ---- R08.3
 	table, err := panicob.LoadTable(c.VerifDir, "panic_justified.json")
 	if err != nil {
@@ -939,4 +944,108 @@ func checkSpecialClassesFirst(c *core.Ctx, prog *core.Prog, r *core.Rule) {
 	} else {
 		r.Fail("class-open-bracket-unescaped", c.Pos(fn.Pos()), "scanBracket copies '[' inside a character class verbatim: RE2 reads \"[:alpha:]\" there as a POSIX class, ECMA-262 as six ordinary members — the pattern runs on the linear engine with another meaning")
 	}
+}
+
+
+// checkPatternTextUnchanged (R08.5, S1). The text the regex compiler sees is the text the document has: from
+// RawSchema.Pattern to Schema.Pattern to ogenregex.Compile nothing rewrites it. ECMA-262 gives every character of the
+// `pattern` keyword a meaning (it is the RegExp *source*, not a /literal/), so any trimming, unwrapping, anchoring or
+// case folding on the way changes the set of accepted strings, and the compiled pattern no longer reports its source.
+//   (a) whatever is stored into jsonschema.Schema.Pattern is a direct load of a field named Pattern of a jsonschema
+//       struct (RawSchema, Schema), or — in gen.mergeSchemes only — the result of the function-local selector applied to
+//       two such loads (allOf merge: one of the two);
+//   (b) the argument of every ogenregex.Compile / MustCompile call outside package ogenregex is such a load.
+func checkPatternTextUnchanged(c *core.Ctx) error {
+	r := c.NewRule("R08.5", "S1", "the pattern text reaches the regex compiler unchanged (no rewriting between the document and ogenregex.Compile)", 3)
+	prog, err := c.Program("./jsonschema", "./gen", "./gen/ir", "./openapi/parser")
+	if err != nil {
+		return err
+	}
+	isPatternLoad := func(v ssa.Value) bool {
+		for {
+			ct, ok := v.(*ssa.ChangeType)
+			if !ok {
+				break
+			}
+			v = ct.X
+		}
+		switch x := v.(type) {
+		case *ssa.UnOp:
+			if x.Op != token.MUL {
+				return false
+			}
+			fa, ok := x.X.(*ssa.FieldAddr)
+			return ok && fieldName(fa.X.Type(), fa.Field) == "Pattern" && typePkgPath(fa.X.Type()) == pkgJS
+		case *ssa.Field:
+			return fieldName(x.X.Type(), x.Field) == "Pattern" && typePkgPath(x.X.Type()) == pkgJS
+		}
+		return false
+	}
+	for _, path := range []string{pkgJS, pkgGen, pkgIR, core.Module + "/openapi/parser"} {
+		sp := prog.ByPath[path]
+		if sp == nil {
+			r.Undecided("load:"+path, "-", "package not loaded")
+			continue
+		}
+		for _, top := range core.PkgFuncs(prog.SSA, sp) {
+			for _, fn := range core.AllFuncs(top) {
+				for _, b := range fn.Blocks {
+					for _, in := range b.Instrs {
+						switch x := in.(type) {
+						case *ssa.Store:
+							fa, ok := x.Addr.(*ssa.FieldAddr)
+							if !ok || fieldName(fa.X.Type(), fa.Field) != "Pattern" || typePkgPath(fa.X.Type()) != pkgJS || recvName(fa.X.Type()) != "Schema" {
+								continue
+							}
+							if _, isStr := x.Val.Type().Underlying().(*types.Basic); !isStr {
+								continue
+							}
+							key := "pattern-store:" + fnKeyFull(fn)
+							ok2 := isPatternLoad(x.Val)
+							if !ok2 {
+								if ex, isEx := x.Val.(*ssa.Extract); isEx && ex.Index == 0 {
+									// allOf merge (gen.mergeSchemes): the function-local selector someStr(a, b, both) returns one
+									// of its two arguments, or both(a, b), which returns a only when a == b (reviewed); a call
+									// of a package-level function is a rewriting step and is not accepted
+									if call, isCall := ex.Tuple.(*ssa.Call); isCall {
+										callee := call.Common().StaticCallee()
+										a := call.Common().Args
+										local := callee == nil || callee.Parent() != nil
+										ok2 = local && fn.Name() == "mergeSchemes" && len(a) >= 2 && isPatternLoad(a[0]) && isPatternLoad(a[1])
+									}
+								}
+							}
+							if ok2 {
+								r.Pass(fmt.Sprintf("%s stores an unchanged pattern text into Schema.Pattern", fnKeyFull(fn)))
+							} else {
+								r.Fail(key, c.Pos(x.Pos()), "Schema.Pattern receives a computed value instead of the document's pattern text: the `pattern` keyword is the RegExp source, every character of it (a leading `/`, `^`, whitespace) is part of the expression")
+							}
+						case *ssa.Call:
+							name := core.CalleeName(x.Common())
+							if !strings.HasSuffix(name, "/ogenregex.Compile") && !strings.HasSuffix(name, "/ogenregex.MustCompile") {
+								continue
+							}
+							key := "pattern-compile-arg:" + fnKeyFull(fn)
+							if len(x.Common().Args) == 1 && isPatternLoad(x.Common().Args[0]) {
+								r.Pass(fmt.Sprintf("%s compiles the pattern text as stored", fnKeyFull(fn)))
+							} else {
+								r.Fail(key, c.Pos(x.Pos()), "ogenregex.Compile is handed a computed string instead of a schema's pattern text: what is compiled is not what the document says")
+							}
+						}
+					}
+				}
+			}
+		}
+	}
+	return nil
+}
+
+func typePkgPath(t types.Type) string {
+	if p, ok := t.Underlying().(*types.Pointer); ok {
+		t = p.Elem()
+	}
+	if n, ok := types.Unalias(t).(*types.Named); ok && n.Obj().Pkg() != nil {
+		return n.Obj().Pkg().Path()
+	}
+	return ""
 }
